@@ -448,7 +448,7 @@ def gen_api_status():
     # arms of the match on the decoded status, with or without the `Some(..)` wrapper
     arms = []
     for st, rhs in re.findall(r"WriteResult::(\w+)\s*\)?\s*=>\s*([^,]+),", aw):
-        rhs = rhs.strip()
+        rhs = rhs.strip().strip("{}").strip().rstrip(";").strip()
         if re.search(r"\bOk\(\s*\(\)\s*\)", rhs):
             arms.append((st, "Ok()", ""))
         else:
